@@ -298,6 +298,20 @@ def step (s : St) (j : Json) : R (St × Json) := do
     | some bs => return (s, Json.mkObj [("doc", Json.arr (bs.map (fun b =>
         Json.arr #[Json.str b.1, Json.arr (b.2.map encARec).toArray])).toArray)])
     | none => return (s, Json.mkObj [("doc", Json.null)])
+  | "graph_roundtrip" =>
+    let c ← s.cont j "c"
+    match s.h.provToGraph c with
+    | (h1, .error e) => return ({ s with h := h1 }, errJson (some e))
+    | (h1, .ok (_u, st)) =>
+      let nodeJson (n : GNode) : Json := Json.arr #[Json.bool n.declared.isSome, Json.str n.kind.typeName, Json.str n.id.uri]
+      let nodes := Json.arr (st.nodes.map nodeJson).toArray
+      let edges := Json.arr (st.edges.map (fun e =>
+        match st.pool[e.1]?, st.pool[e.2.1]? with
+        | some a, some b => Json.arr #[nodeJson a, nodeJson b, encRecord (h1.recCell e.2.2).r]
+        | _, _ => Json.null)).toArray
+      match h1.graphToProv st with
+      | (h2, .ok nd) => return (← { s with h := h2 }.bindCont j nd, Json.mkObj [("err", Json.null), ("nodes", nodes), ("edges", edges)])
+      | (h2, .error e) => return ({ s with h := h2 }, errJson (some e))
   | "enc_xml" =>
     let c ← s.cont j "c"
     let ft ← (← j.getObjVal? "ft").getBool?
